@@ -7,7 +7,11 @@ Events over the names a, b and `_`:
     P x  fn g<i>(x) {  …  }  g<i>(K)      (parameter, body run by a call)
     W x  for [_, x] in [K] {  …  }        (for target)
     (    fn g<i>() {  …  }  g<i>()        (body run by a call)
-    {    bare block / `if true {` (alternating)            }    close the innermost open construct
+    C x  collect, declaring:  [..x] := []  /  [h<i>, ..x] := [K]  /  {..x} := {}  /  [..x] := [K]     (by position)
+    S x  collect, assigning:  [..x] = []   /  [_, ..x] = [K]      /  {..x} = {}                       (by position)
+    {    bare block        ?  `if true {`        !  `if false { … } else {` (else arm taken)
+    %    `if false { … } else if true {`         @  `while w { w = false …` (one iteration)
+    }    close the innermost open construct
 
 The machine keeps a stack of scopes (name -> kind, value, position of the declaring identifier) and predicts stdout, and
 for the first failing event the diagnostic: `not defined` at the name, or `already defined … at [line:col]` citing the
@@ -15,7 +19,7 @@ earlier declaration.  Only sequences whose proper prefixes are error-free are ge
 """
 
 NAMES = ["a", "b", "_"]
-TOKENS = [k + x for k in "DAORLFPW" for x in NAMES] + ["{", "(", "}"]
+TOKENS = [k + x for k in "DAORLCSFPW" for x in NAMES] + ["{", "?", "!", "%", "@", "(", "}"]
 
 
 class Machine:
@@ -71,8 +75,23 @@ class Machine:
             return True
         if self.open:
             self.open[-1][2] = True
-        if t == "{":
-            self.emit("{" if i % 2 == 0 else "if true {")
+        if t in ("{", "?", "!", "%", "@"):
+            if t == "{":
+                self.emit("{")
+            elif t == "?":
+                self.emit("if true {")
+            elif t == "!":
+                self.emit("if false {")
+                self.lines.append(self.ind() + "    print(0)")
+                self.emit("} else {")
+            elif t == "%":
+                self.emit("if false {")
+                self.lines.append(self.ind() + "    print(0)")
+                self.emit("} else if true {")
+            else:
+                self.emit(f"wq{i} := true")
+                self.emit(f"while wq{i} {{")
+                self.lines.append(self.ind() + f"    wq{i} = false")
             self.open.append(["block", None, False])
             self.scopes.append({})
             return True
@@ -113,7 +132,7 @@ class Machine:
             if c is None:
                 self.undefined(x, line, base + 7)
             else:
-                self.out.append(str(c["val"]) if c["kind"] == "int" else f"<function 'Some(\"{x}\")'>")
+                self.out.append(str(c["val"]) if c["kind"] in ("int", "other") else f"<function 'Some(\"{x}\")'>")
         elif kind == "L":
             if i % 2 == 0:
                 line = self.emit(f"[{x}, _] := [{k}, 0]")
@@ -121,6 +140,37 @@ class Machine:
             else:
                 line = self.emit(f"{{\"k\": {x}}} := {{\"k\": {k}}}")
                 self.declare(x, "int", k, line, base + 7)
+        elif kind == "C":
+            form = i % 4
+            if form == 0:
+                line = self.emit(f"[..{x}] := []")
+                self.declare(x, "other", "[\n]", line, base + 4)
+            elif form == 1:
+                line = self.emit(f"[h{i}, ..{x}] := [{k}]")
+                self.declare(x, "other", "[\n]", line, base + len(f"[h{i}, ..") + 1)
+            elif form == 2:
+                line = self.emit(f"{{..{x}}} := {{}}")
+                self.declare(x, "other", "{\n}", line, base + 4)
+            else:
+                line = self.emit(f"[..{x}] := [{k}]")
+                self.declare(x, "other", f"[\n    {k},\n]", line, base + 4)
+        elif kind == "S":
+            form = i % 3
+            if form == 0:
+                line = self.emit(f"[..{x}] = []")
+                val, col = "[\n]", base + 4
+            elif form == 1:
+                line = self.emit(f"[_, ..{x}] = [{k}]")
+                val, col = "[\n]", base + 7
+            else:
+                line = self.emit(f"{{..{x}}} = {{}}")
+                val, col = "{\n}", base + 4
+            if x != "_":
+                c = self.lookup(x)
+                if c is None:
+                    self.undefined(x, line, col)
+                else:
+                    c["kind"], c["val"] = "other", val
         elif kind == "F":
             line = self.emit(f"fn {x}() {{ return 0; }}")
             self.declare(x, "func", None, line, base + 4)
@@ -168,10 +218,15 @@ def run_sequence(seq):
     return m
 
 
-def sequences(maxlen):
+REDUCED = [k + "a" for k in "DAORLCSFPW"] + ["D_", "R_", "{", "?", "!", "%", "@", "(", "}"]
+
+
+def sequences(maxlen, tokens=None):
     """depth first over error-free prefixes"""
+    tokens = tokens or TOKENS
+
     def go(prefix):
-        for t in TOKENS:
+        for t in tokens:
             seq = prefix + (t,)
             m = run_sequence(seq)
             if m is None:
@@ -223,6 +278,12 @@ def positions(kind, t):
         ("in-object-pattern", f"{{\"k\": {t}}} := {{\"k\": {rhs}}}\n", (L, 7)),
         ("in-object-pattern-assign", f"{{\"k\": {t}}} = {{\"k\": {rhs}}}\n", (L, 7)),
         ("in-parameter-pattern", f"fn g([{t}]) {{\n    return 0\n}}\nprint(\"defined\")\ng([{rhs}])\n", (L, 7)),
+        ("collect-only-empty-source", f"[..{t}] := []\n", (L, 4)),
+        ("collect-only-empty-source-assign", f"[..{t}] = []\n", (L, 4)),
+        ("collect-only", f"[..{t}] := [{rhs}]\n", (L, 4)),
+        ("collect-after-item", f"[w1, ..{t}] := [0]\n", (L, 8)),
+        ("collect-nested-empty-source", f"[[..{t}]] := [[]]\n", (L, 5)),
+        ("object-collect", f"{{..{t}}} := {{}}\n", (L, 4)),
     ]
     before = {"parameter-of-fn-literal": "before\ndefined\n"}
     return [(p, PRE + s + "print(\"after\")\n", pos, before.get(p, "before\n")) for p, s, pos in out]
@@ -287,6 +348,9 @@ _LINE = [
     (_re.compile(r"^(\w+) := \d+$"), "D"), (_re.compile(r"^(\w+) = \d+$"), "A"), (_re.compile(r"^(\w+) \+= 1$"), "O"),
     (_re.compile(r"^print\(([a-z_])\)$"), "R"), (_re.compile(r"^\[(\w+), _\] := \[\d+, 0\]$"), "L"),
     (_re.compile(r"^\{\"k\": (\w+)\} := \{\"k\": \d+\}$"), "L"), (_re.compile(r"^fn ([ab_])\(\) \{ return 0; \}$"), "F"),
+    (_re.compile(r"^\[\.\.(\w+)\] := \[\d*\]$"), "C"), (_re.compile(r"^\[h\d+, \.\.(\w+)\] := \[\d+\]$"), "C"),
+    (_re.compile(r"^\{\.\.(\w+)\} := \{\}$"), "C"), (_re.compile(r"^\[\.\.(\w+)\] = \[\]$"), "S"),
+    (_re.compile(r"^\[_, \.\.(\w+)\] = \[\d+\]$"), "S"), (_re.compile(r"^\{\.\.(\w+)\} = \{\}$"), "S"),
     (_re.compile(r"^fn g\d+\((\w+)\) \{$"), "P"), (_re.compile(r"^for \[_, (\w+)\] in \[\d+\] \{$"), "W"),
 ]
 
@@ -295,10 +359,19 @@ def tokens_of(src):
     toks = []
     for l in src.split("\n"):
         l = l.strip()
-        if not l or l == "print(0)" or _re.match(r"^g\d+\(\d*\)$", l):
+        if not l or l == "print(0)" or _re.match(r"^g\d+\(\d*\)$", l) or l == "if false {" or \
+                _re.match(r"^wq\d+ (:= true|= false)$", l):
             continue
-        if l in ("{", "if true {"):
+        if l == "{":
             toks.append("{")
+        elif l == "if true {":
+            toks.append("?")
+        elif l == "} else {":
+            toks.append("!")
+        elif l == "} else if true {":
+            toks.append("%")
+        elif _re.match(r"^while wq\d+ \{$", l):
+            toks.append("@")
         elif l == "}":
             toks.append("}")
         elif _re.match(r"^fn g\d+\(\) \{$", l):
